@@ -641,7 +641,6 @@ theorem ra_key (S : Setting G n t ins) (i : Nat) (hi : i ∈ honestIdx ins) (P3 
   rw [f2, f1, f6, g3] at hv
   obtain ⟨-, -, hfold⟩ := ra_viFold (fun jt => viOf G st4.qual A' jt) st4.qual st4.vi st6.vi f9 i
   obtain ⟨v', hv', hget⟩ := hfold (by simpa using hqi) hqnd (by rw [g4, e3.vi]; simp [zeros, hi1])
-  skip
   rw [hv] at hv'
   injection hv' with hv'
   rw [hrv, hget, hv']
